@@ -18,7 +18,7 @@
 (*    [ j, m |-> "ident", e, res |-> <<index>> ]   (C12: identity law)     *)
 (*                                                                         *)
 (* Plan  (before the implementation runs): prints for every case           *)
-(*    <<"P", id, lt, cls, descr, anti, radii, zero>>  ranks, class indices,*)
+(*    <<"P", id, lt, cls, descr, anti, radii, zero, purity>>  ranks, ...,  *)
 (*    distance descriptors <<|q x s|^2, q.s>>, exact-antipode flags, the   *)
 (*    radius cases to run (boundary radii included) and the coincident set *)
 (* Judge (after): prints <<"V", id, { <<j, clause>> }>> for every case     *)
@@ -81,7 +81,7 @@ PlanOf(r) ==
         q  == Vec3(r.q)
         lt == LtVec(q, S)
     IN << "P", r.id, lt, ClsVec(lt), DistDescr(q, S), [ e \in 1..Len(S) |-> Antipodal(q, S[e]) ],
-          RadiusPlan(lt), ZeroSet(q, S) >>
+          RadiusPlan(lt), ZeroSet(q, S), PurityOf(q, S) >>
 
 Init == i \in { -b : b \in 1..NBlocks }
 Next == /\ i < 0
